@@ -4,10 +4,10 @@
 //! event sequence number.
 
 use super::hist;
-use mos_simrt::shuttle;
 use mos_simrt::chan::{self, Receiver, RecvTimeoutError};
 use mos_simrt::net::TcpStream;
 use mos_simrt::pipe::{ClientReader, ClientWriter};
+use mos_simrt::shuttle;
 use mos_simrt::{clock, net};
 use serde_json::{json, Value};
 use std::collections::VecDeque;
@@ -32,11 +32,18 @@ pub fn read_frame(r: &mut dyn BufRead) -> std::io::Result<Option<Value>> {
     }
     let size = match size {
         Some(s) => s,
-        None => return Err(std::io::Error::new(std::io::ErrorKind::InvalidData, "no Content-Length")),
+        None => {
+            return Err(std::io::Error::new(
+                std::io::ErrorKind::InvalidData,
+                "no Content-Length",
+            ))
+        }
     };
     let mut buf = vec![0u8; size];
     r.read_exact(&mut buf)?;
-    serde_json::from_slice(&buf).map(Some).map_err(|e| std::io::Error::new(std::io::ErrorKind::InvalidData, e))
+    serde_json::from_slice(&buf)
+        .map(Some)
+        .map_err(|e| std::io::Error::new(std::io::ErrorKind::InvalidData, e))
 }
 
 pub fn write_frame(w: &mut dyn Write, v: &Value) -> std::io::Result<()> {
@@ -79,21 +86,23 @@ impl DapClient {
                     let deaf = std::sync::Arc::new(std::sync::atomic::AtomicBool::new(false));
                     let deaf2 = deaf.clone();
                     // reader sub-task: frames -> channel
-                    let _ = shuttle::thread::Builder::new().name("dap-client-reader".into()).spawn(move || {
-                        let mut br = BufReader::new(rs);
-                        loop {
-                            while deaf2.load(std::sync::atomic::Ordering::SeqCst) {
-                                clock::sleep(Duration::from_millis(20));
+                    let _ = shuttle::thread::Builder::new()
+                        .name("dap-client-reader".into())
+                        .spawn(move || {
+                            let mut br = BufReader::new(rs);
+                            loop {
+                                while deaf2.load(std::sync::atomic::Ordering::SeqCst) {
+                                    clock::sleep(Duration::from_millis(20));
+                                }
+                                let v = match read_frame(&mut br) {
+                                    Ok(Some(v)) => v,
+                                    _ => break,
+                                };
+                                if tx.send(v).is_err() {
+                                    break;
+                                }
                             }
-                            let v = match read_frame(&mut br) {
-                                Ok(Some(v)) => v,
-                                _ => break,
-                            };
-                            if tx.send(v).is_err() {
-                                break;
-                            }
-                        }
-                    });
+                        });
                     hist("dap", "connected", json!({ "port": port }));
                     return Some(DapClient {
                         stream,
@@ -168,7 +177,11 @@ impl DapClient {
 
     /// Wait for the next event with the given name (queued ones first).
     pub fn wait_event(&mut self, name: &str, timeout: Duration) -> Option<Value> {
-        if let Some(i) = self.pending_events.iter().position(|e| e.get("event").and_then(|n| n.as_str()) == Some(name)) {
+        if let Some(i) = self
+            .pending_events
+            .iter()
+            .position(|e| e.get("event").and_then(|n| n.as_str()) == Some(name))
+        {
             return self.pending_events.remove(i);
         }
         let deadline = clock::now_us() + timeout.as_micros() as u64;
@@ -214,15 +227,17 @@ impl DapClient {
         let ws = self.stream.clone();
         let first = self.seq + 1;
         self.seq += n;
-        let _ = shuttle::thread::Builder::new().name("dap-client-flooder".into()).spawn(move || {
-            for i in 0..n {
-                let msg = json!({"type": "request", "seq": first + i, "command": "threads"});
-                let mut w = &ws;
-                if write_frame(&mut w, &msg).is_err() {
-                    break;
+        let _ = shuttle::thread::Builder::new()
+            .name("dap-client-flooder".into())
+            .spawn(move || {
+                for i in 0..n {
+                    let msg = json!({"type": "request", "seq": first + i, "command": "threads"});
+                    let mut w = &ws;
+                    if write_frame(&mut w, &msg).is_err() {
+                        break;
+                    }
                 }
-            }
-        });
+            });
     }
 
     pub fn last_seq(&self) -> usize {
@@ -280,7 +295,10 @@ impl DapClient {
     }
 
     pub fn take_event(&mut self, name: &str) -> Option<Value> {
-        let i = self.pending_events.iter().position(|e| e.get("event").and_then(|n| n.as_str()) == Some(name))?;
+        let i = self
+            .pending_events
+            .iter()
+            .position(|e| e.get("event").and_then(|n| n.as_str()) == Some(name))?;
         self.pending_events.remove(i)
     }
 
@@ -314,15 +332,23 @@ pub struct LspClient {
 impl LspClient {
     pub fn new(w: ClientWriter, r: ClientReader) -> LspClient {
         let (tx, rx) = chan::unbounded::<Value>();
-        let _ = shuttle::thread::Builder::new().name("lsp-client-reader".into()).spawn(move || {
-            let mut r = r;
-            while let Ok(Some(v)) = read_frame(&mut r) {
-                if tx.send(v).is_err() {
-                    break;
+        let _ = shuttle::thread::Builder::new()
+            .name("lsp-client-reader".into())
+            .spawn(move || {
+                let mut r = r;
+                while let Ok(Some(v)) = read_frame(&mut r) {
+                    if tx.send(v).is_err() {
+                        break;
+                    }
                 }
-            }
-        });
-        LspClient { w, rx, next_id: 0, timeout: Duration::from_secs(20), notifications: vec![] }
+            });
+        LspClient {
+            w,
+            rx,
+            next_id: 0,
+            timeout: Duration::from_secs(20),
+            notifications: vec![],
+        }
     }
 
     pub fn notify(&mut self, method: &str, params: Value) -> Result<(), ClientErr> {
@@ -340,8 +366,13 @@ impl LspClient {
         loop {
             match self.rx.recv_timeout(self.timeout) {
                 Ok(v) => {
-                    if v.get("id").and_then(|i| i.as_i64()) == Some(id) && v.get("method").is_none() {
-                        hist("lsp", "response", json!({"id": id, "error": v.get("error").cloned()}));
+                    if v.get("id").and_then(|i| i.as_i64()) == Some(id) && v.get("method").is_none()
+                    {
+                        hist(
+                            "lsp",
+                            "response",
+                            json!({"id": id, "error": v.get("error").cloned()}),
+                        );
                         return Ok(v);
                     }
                     self.notifications.push(v);
@@ -365,12 +396,18 @@ impl LspClient {
 
     pub fn did_open(&mut self, path: &str, text: &str) -> Result<(), ClientErr> {
         let uri = lsp_types::Url::from_file_path(path).unwrap().to_string();
-        self.notify("textDocument/didOpen", json!({"textDocument": {"uri": uri, "languageId": "asm", "version": 0, "text": text}}))
+        self.notify(
+            "textDocument/didOpen",
+            json!({"textDocument": {"uri": uri, "languageId": "asm", "version": 0, "text": text}}),
+        )
     }
 
     pub fn did_change(&mut self, path: &str, text: &str) -> Result<(), ClientErr> {
         let uri = lsp_types::Url::from_file_path(path).unwrap().to_string();
-        self.notify("textDocument/didChange", json!({"textDocument": {"uri": uri, "version": 1}, "contentChanges": [{"text": text}]}))
+        self.notify(
+            "textDocument/didChange",
+            json!({"textDocument": {"uri": uri, "version": 1}, "contentChanges": [{"text": text}]}),
+        )
     }
 
     /// close the client's end of the server's stdin
